@@ -11,31 +11,40 @@ from ..common import Ctx, Tokens, close, driver_batch, f2b, fvec
 LEVEL = "proof"
 LEVEL_TEXT = (
     "PROOF (Lean, over the reals, abstract transform with HasDerivAt hypotheses, orders 1-3, arbitrary coefficient "
-    "functions): the coefficient arithmetic of _transform_ode_from_derivs, the loop nest of "
-    "_derivative_transformation_matrix, the fold of _rearrange_to_explicit_ode and the composition "
-    "_transform_and_rearrange_to_explicit_ode are regenerated from the source on every run, and for that text: "
+    "functions): the whole of ode.py that the property touches is regenerated from the source on every run - the "
+    "coefficient arithmetic of _transform_ode_from_derivs, the loop nest of _derivative_transformation_matrix, the fold "
+    "of _rearrange_to_explicit_ode, _evaluate_coeffs_on_points, the composition _transform_and_rearrange_to_explicit_ode, "
+    "and (round 2) the bodies of solve_ode_ivp and solve_ode_bvp with their nested callbacks func / bc (guards, "
+    "x_span = transform.transform(...), the mapping of the initial data y0 through solve(deriv, y0[1:]), evaluation of the "
+    "coefficients and of fx at transform.inverse(x), the choice of the returned object) and of "
+    "_transform_solution_to_original_domain (no_derivatives, the back-transformation of the returned derivatives at pt[i]); "
+    "SciPy's solve_ivp / solve_bvp / linalg.solve are named parameters with stated contracts. For that text: "
     "Faa di Bruno to order 3; the transformed ODE with the code's b_j is equivalent to the original one; the "
     "derivative matrix is the lower-triangular Bell matrix, maps r-derivatives to x-derivatives, is invertible iff "
-    "g' != 0, and the initial-data mapping solve(M, y0[1:]) and the back-transformation M.dot are mutually inverse; "
-    "the explicit form (any order); the boundary-condition callback; and, end to end, IF the SciPy integrator returns "
-    "an exact solution of the first-order system it is handed, the callable returned by solve_ode_ivp/solve_ode_bvp "
+    "g' != 0, and the initial-data mapping and the back-transformation are mutually inverse; "
+    "the explicit form (any order); the boundary-condition callback; what solve_ode_ivp / solve_ode_bvp hand to SciPy, "
+    "return and reject; and, end to end for the whole functions, IF the SciPy integrator returns "
+    "an exact solution of the first-order system it is handed (and linalg.solve a solution of its linear system), the "
+    "callable returned by solve_ode_ivp/solve_ode_bvp "
     "has rows y, y', y'' with respect to the ORIGINAL variable, solves the stated ODE and meets the prescribed "
-    "initial/boundary conditions; and 'through a transform == directly' (through_transform_eq_direct: with exact "
+    "initial/boundary conditions (solve_ode_ivp_correct3, solve_ode_bvp_correct3); and 'through a transform == directly' "
+    "(through_transform_eq_direct: with exact "
     "integrators on both routes and continuous coefficients the returned rows coincide on the whole interval; "
     "uniqueness of linear initial-value problems via Mathlib's Gronwall lemma; orders 1, 2, 3). "
     "EXPLORATION (not a proof): the accuracy clause - that SciPy's solve_ivp/solve_bvp actually deliver the solution "
     "within the solver tolerance - is tested with manufactured solutions (random smooth y, random coefficient "
     "functions/constants, orders 1-3, several IVP methods, BVP, directly and through 15+ transforms incl. "
     "Knowles k=2,3 and HandyMod m=2,3), comparing values and derivatives with the exact ones, checking the "
-    "prescribed conditions and 'through transform == direct'. Hand-written parts of the model (SymPy bell, "
-    "initial-data mapping, returned callable, func/bc callbacks) are tied by correspondence, including the "
-    "callbacks and initial data captured from solve_ode_ivp/solve_ode_bvp with SciPy's integrators replaced by a recorder."
+    "prescribed conditions and 'through transform == direct'. The hand-written remainder of the model (SymPy bell, "
+    "NumPy plumbing, forward substitution) and the generated text at Float are tied by correspondence, including the "
+    "callbacks and initial data captured from solve_ode_ivp/solve_ode_bvp with SciPy's integrators replaced by a recorder, "
+    "and the whole functions with the integrators replaced by a stub (guards, return branch, no_derivatives)."
 )
 TECHNIQUE = ("Lean 4 proof over regenerated source text (transformation algebra, derivative matrices, explicit form, "
-             "end-to-end under the integrator contract) + differential correspondence of the private helpers and of "
+             "the bodies of the public functions and their callbacks, end-to-end under the contracts of the SciPy primitives) + differential correspondence of the private helpers and of "
              "the captured SciPy callbacks + manufactured-solution exploration of solve_ode_ivp/solve_ode_bvp")
 GEN = ["ode"]
-LEAN_MODULES = ["GridVerif.Props.C15", "GridVerif.Props.C15.Solve", "GridVerif.Props.C15.Unique"]
+LEAN_MODULES = ["GridVerif.Props.C15", "GridVerif.Props.C15.Solve", "GridVerif.Props.C15.Unique", "GridVerif.Props.C15.Public"]
 THEOREMS = [
     "GridVerif.C15.faa_di_bruno_3",
     "GridVerif.C15.derivs_of_comp",
@@ -75,29 +84,59 @@ THEOREMS = [
     "GridVerif.C15.deriv_matrix_guard",
     "GridVerif.Ode.bell_indep_of_tail",
     "GridVerif.Ode.rearrange_eq",
+    # round 2: theorems about the generated bodies of solve_ode_ivp / solve_ode_bvp / _transform_solution_to_original_domain
+    "GridVerif.Ode.evaluateCoeffOnPoint_eq",
+    "GridVerif.Ode.transformOdeFromRtransform_eq",
+    "GridVerif.Ode.bvpFunc_eq_ivpFunc",
+    "GridVerif.C15.transformSolution_eq",
+    "GridVerif.C15.transformSolution_noDerivs",
+    "GridVerif.C15.ivpTransformSetup_eq",
+    "GridVerif.C15.ivpTransformSetup_rejects",
+    "GridVerif.C15.bvpBc_eq",
+    "GridVerif.C15.returned_rows₁",
+    "GridVerif.C15.returned_rows₂",
+    "GridVerif.C15.ivp_initial_conditions_of_contract",
+    "GridVerif.C15.solve_ode_ivp_direct",
+    "GridVerif.C15.solve_ode_ivp_transformed",
+    "GridVerif.C15.solve_ode_ivp_rejects",
+    "GridVerif.C15.solve_ode_bvp_direct",
+    "GridVerif.C15.solve_ode_bvp_transformed",
+    "GridVerif.C15.solve_ode_bvp_rejects",
+    "GridVerif.C15.solve_ode_ivp_correct₃",
+    "GridVerif.C15.solve_ode_bvp_correct₃",
 ]
 RULE = (
     "correspondence: sympy.bell (n<=6) / _transform_ode_from_derivs / _transform_ode_from_rtransform / "
     "_derivative_transformation_matrix (order 0..4, guard) / _rearrange_to_explicit_ode (orders 1..5) / "
     "_transform_solution_to_original_domain on random inputs, plus func, bc, t_span and y0 captured from "
-    "solve_ode_ivp / solve_ode_bvp (SciPy integrators replaced by a recorder) evaluated on random arguments, each "
-    "against the Lean model at Float; non-trivial = order >= 2 with a non-zero second transform derivative, or a "
+    "solve_ode_ivp / solve_ode_bvp (SciPy integrators replaced by a recorder) evaluated on random arguments, plus the whole "
+    "functions with the integrators replaced by a stub (status 0 / non-zero, wrong number of data, order 4, span outside the "
+    "transform's domain, with/without transform, no_derivatives) compared by exception class or returned value, each "
+    "against the generated Lean text at Float; non-trivial = order >= 2 with a non-zero second transform derivative, or a "
     "callable coefficient, or the guard / an error branch taken. Oracle cases (manufactured solutions) are counted "
     "with tag 'oracle:*' and are non-trivial when the transform is non-affine or a coefficient is non-constant."
 )
 TRUSTED_BASE = [
     "Lean 4.33 kernel; axioms propext, Classical.choice, Quot.sound only (audited per theorem)",
-    "translator harness/translate/ode.py (symbolic execution of the `if total > n` blocks for total = 2,3,4; loop nest; fold)",
-    "hand model Model/Ode.lean + Model/OdeSolve.lean (sympy.bell recurrence, matrix plumbing, forward substitution for "
-    "scipy.linalg.solve, initial-data mapping, returned callable, func/bc callbacks), tied by correspondence",
-    "SciPy solve_ivp / solve_bvp: contract 'returns a solution of the first-order system it is given' (hypothesis of the "
-    "end-to-end theorems; its accuracy is explored, not proved)",
+    "translator harness/translate/ode.py (symbolic execution of the `if total > n` blocks for total = 2,3,4; loop nest; fold; "
+    "a small statement compiler for the bodies of solve_ode_ivp / solve_ode_bvp / _transform_solution_to_original_domain: "
+    "one evaluation point / one column of every (rows, points) array; it raises on any syntax it cannot carry, e.g. an array "
+    "read at another index than the loop variable); validated at Float against the implementation on every run",
+    "hand model Model/Ode.lean (sympy.bell recurrence, matrix plumbing, forward substitution as the driver's "
+    "scipy.linalg.solve, Python min/max, column assignments), tied by correspondence",
+    "SciPy solve_ivp / solve_bvp: contract 'returns a solution of the first-order system it is given, starting at the data / "
+    "with vanishing bc residuals' and scipy.linalg.solve: contract 'M v = b' (hypotheses of the end-to-end theorems; the "
+    "integrators' accuracy is explored, not proved)",
 ]
 ASSUMPTIONS = [
     "transform admissible on an open set of the original variable: deriv, deriv2, deriv3 are the derivatives of transform "
     "(that is property C03; C15 takes it as a hypothesis), inverse(transform(x)) = x, deriv != 0",
     "leading coefficient a_K does not vanish on the interval",
     "for solve_ode_bvp with a transform, derivative boundary values are with respect to the new coordinate (as documented)",
+    "not carried by the translator (recorded in the generated file as comments): `x = np.array([x])` in solve_ode_ivp.func (shape "
+    "plumbing), the random default of initial_guess_y, the scalar-argument path `if interpolated.ndim == 1: return interpolated` "
+    "of the returned callable (a Python-scalar argument with no_derivatives=True gets the integrator's whole vector back; with "
+    "no_derivatives=False it raises IndexError - array arguments only, as documented)",
     "IEEE rounding not modelled; tolerances: correspondence rtol 1e-11 of the largest intermediate, "
     "exploration 5e3 x solver rtol (IVP) resp. 1e-6 (BVP, tol 1e-8) relative to 1 + max|y^(k)|",
 ]
@@ -259,6 +298,17 @@ def transforms_catalogue():
         # accepts at most 1/b points per call (`b*(npoint-1) < 1` is checked on every array): no BVP (mesh refinement)
         "HyperbolicRTransform": ("HyperbolicRTransform(0.3, 0.05)", (0.3, 1.2), {"no_bvp": True}),
         "HyperbolicRTransform:np.float64-span": ("HyperbolicRTransform(0.3, 0.05)", (0.3, 1.2), {"np_span": True, "no_bvp": True}),
+        # round 2: the remaining classes / parameter values of grid.rtransform
+        "KnowlesRTransform:k=1": ("KnowlesRTransform(0.1, 1.5, 1)", (-0.5, 0.4), {}),
+        "Inverse(KnowlesRTransform):k=1": ("InverseRTransform(KnowlesRTransform(0.1, 1.5, 1))", (0.4, 1.8), {}),
+        "HandyRTransform:m=1": ("HandyRTransform(0.1, 1.5, 1)", (-0.5, 0.4), {}),
+        # (r from 0.16 to 19, g' up to 80: solve_bvp's own error (~ tol) in d2Y/dr2 is multiplied by g'^2 when mapped back;
+        #  observed on the unchanged tree 1.4e-6 at tol 1e-8, 2e-9 at tol 1e-10 - the solver's accuracy, not the library's)
+        "HandyRTransform:m=3": ("HandyRTransform(0.1, 1.5, 3)", (-0.5, 0.4), {"bvp_tol_factor": 30.0}),
+        "Inverse(HandyRTransform):m=2": ("InverseRTransform(HandyRTransform(0.1, 1.5, 2))", (0.4, 1.8), {}),
+        "HandyModRTransform:m=1": ("HandyModRTransform(0.1, 10.0, 1)", (-0.5, 0.4), {}),
+        "Inverse(IdentityRTransform)": ("InverseRTransform(IdentityRTransform())", (0.3, 1.6), {"affine": True}),
+        "Inverse(HyperbolicRTransform)": ("InverseRTransform(HyperbolicRTransform(0.3, 0.05))", (0.05, 0.25), {"no_bvp": True}),
     }
     return cat
 
@@ -427,6 +477,129 @@ def _rand_coeffs(rng, order):
 
 def _eval_coeffs(cs, x):
     return [float(c(np.array([x]))[0]) if kind == "fn" else float(c) for c, kind in cs]
+
+
+class TableTF:
+    """A transform object given by a table: arbitrary values of transform/inverse/deriv/deriv2/deriv3 at the two ends of
+    the span and one value set everywhere else (the generated bodies of solve_ode_ivp / solve_ode_bvp are pure plumbing
+    around these values), plus a domain."""
+
+    def __init__(self, x0, x1, at0, at1, atp, domain):
+        self.x0, self.x1, self.tab, self.domain = x0, x1, (at0, at1, atp), domain
+        self.codomain = (-np.inf, np.inf)
+
+    def _get(self, k, x):
+        x = np.asarray(x, dtype=float)
+        out = np.where(x == self.x0, self.tab[0][k], np.where(x == self.x1, self.tab[1][k], self.tab[2][k]))
+        return float(out) if out.ndim == 0 else out
+
+    def transform(self, x):
+        return self._get(0, x)
+
+    def inverse(self, x):
+        return self._get(1, x)
+
+    def deriv(self, x):
+        return self._get(2, x)
+
+    def deriv2(self, x):
+        return self._get(3, x)
+
+    def deriv3(self, x):
+        return self._get(4, x)
+
+
+_EXC_TAG = {ValueError: "value-error", NotImplementedError: "not-implemented-error", IndexError: "index-error"}
+
+
+def _corr_whole_functions(ctx: Ctx, ode):
+    """solve_ode_ivp / solve_ode_bvp as whole functions against the generated `solveOdeIvp` / `solveOdeBvp` at Float:
+    SciPy's integrators are replaced on both sides by a stub that answers with a given status and a constant dense
+    output; compared are the raised exception class (length / order / domain / status guards) or the value of the
+    returned callable at one point (which runs through the initial-data block, the choice of the return branch,
+    `no_derivatives`, and the back-transformation)."""
+    rng = ctx.rng
+    orig = (ode.solve_ivp, ode.solve_bvp)
+    cases, lines = [], []
+
+    class Res:
+        def __init__(self, status, col):
+            self.status, self.col = status, np.array(col, dtype=float)
+
+        def sol(self, r):
+            r = np.asarray(r, dtype=float)
+            return self.col.copy() if r.ndim == 0 else np.repeat(self.col[:, None], r.size, axis=1)
+
+    try:
+        for it in range(ctx.n(120, 1500)):
+            kind = "ivp" if it % 2 == 0 else "bvp"
+            order = rng.choice([1, 2, 3, 3, 4]) if it >= 8 else 1 + it % 4
+            # which guard (if any) this case aims at
+            aim = rng.choice(["ok", "ok", "ok", "len", "status", "domain", "notf", "notf-nod", "singular"]) if it >= 16 else "ok"
+            has_tf = aim not in ("notf", "notf-nod") and not (order == 4 and rng.random() < 0.5)
+            nod = rng.random() < 0.4
+            status = rng.choice([1, 2, -1]) if aim == "status" else 0
+            a = [rng.choice([-1, 1]) * rng.uniform(0.4, 2.5) for _ in range(order + 1)]
+            n_data = order + rng.choice([-1, 1]) if aim == "len" else order
+            n_data = max(n_data, 0)
+            x0, x1, pt = rng.uniform(-1, 0), rng.uniform(0.5, 1.5), rng.uniform(0.05, 0.45)
+            lo, hi = (-5.0, 5.0)
+            if aim == "domain":
+                lo, hi = rng.choice([(x0 + 0.01, 5.0), (-5.0, x1 - 0.01), (0.2, 0.3)])
+            tab = [[rng.uniform(-2, 2), rng.uniform(-2, 2), rng.choice([-1, 1]) * rng.uniform(0.4, 2), rng.uniform(-2, 2), rng.uniform(-2, 2)]
+                   for _ in range(3)]
+            if aim == "singular":    # g'(x_span[0]) = 0: scipy.linalg.solve raises LinAlgError / returns inf -> ValueError
+                tab[0][2] = rng.choice([0.0, -0.0, 1e-310])
+            interp = [rng.uniform(-2, 2) for _ in range(order)]
+            tf = TableTF(x0, x1, tab[0], tab[1], tab[2], (lo, hi)) if has_tf else None
+            stub = Res(status, interp)
+            ode.solve_ivp = lambda func, t_span, y0=None, **kw: stub
+            ode.solve_bvp = lambda func, bc, x, y=None, **kw: stub
+            tag = f"whole:{kind}:order{order}:{aim}:{'tf' if has_tf else 'none'}"
+            if kind == "ivp":
+                y0 = [rng.uniform(-2, 2) for _ in range(n_data)]
+                try:
+                    ret = ode.solve_ode_ivp((x0, x1), lambda x: 0.0 * x, a, y0, tf, no_derivatives=nod)
+                    out = np.asarray(ret(np.array([pt])), dtype=float)
+                    impl = ("ok", [float(v) for v in np.atleast_1d(out.reshape(-1))])
+                except (ValueError, NotImplementedError, IndexError) as e:
+                    impl = (next(t for c, t in _EXC_TAG.items() if isinstance(e, c)), None)   # LinAlgError is a ValueError
+                t5 = " ".join(" ".join(f2b(v) for v in row) for row in tab)
+                lines.append(f"C15.solveivp {1 if has_tf else 0} {1 if nod else 0} {status} {f2b(x0)} {f2b(x1)} {f2b(pt)} "
+                             f"{f2b(lo)} {f2b(hi)} {t5} {fvec(a)} {fvec(y0)} {fvec(interp)}")
+                inp = dict(kind=kind, order=order, aim=aim, has_tf=has_tf, no_derivatives=nod, status=status, coeffs=a, y0=y0,
+                           x_span=[x0, x1], point=pt, domain=[lo, hi], transform_table=tab, dense_output=interp)
+            else:
+                pairs = [(i, j) for i in (0, 1) for j in range(max(order, 1))]
+                bd = [(i, j, rng.uniform(-2, 2)) for i, j in (rng.sample(pairs, n_data) if n_data <= len(pairs) else pairs)]
+                mesh = np.linspace(x0, x1, 5)
+                try:
+                    ret = ode.solve_ode_bvp(mesh, lambda x: 0.0 * x, a, bd, tf, initial_guess_y=np.zeros((order, 5)), no_derivatives=nod)
+                    out = np.asarray(ret(np.array([pt])), dtype=float)
+                    impl = ("ok", [float(v) for v in np.atleast_1d(out.reshape(-1))])
+                except (ValueError, NotImplementedError, IndexError) as e:
+                    impl = (next(t for c, t in _EXC_TAG.items() if isinstance(e, c)), None)   # LinAlgError is a ValueError
+                t5 = " ".join(f2b(v) for v in tab[2])
+                lines.append(f"C15.solvebvp {1 if has_tf else 0} {1 if nod else 0} {status} {f2b(pt)} {t5} {fvec(a)} "
+                             f"{len(bd)} " + " ".join(f"{i} {j} {f2b(c)}" for i, j, c in bd) + f" {fvec(interp)}")
+                inp = dict(kind=kind, order=order, aim=aim, has_tf=has_tf, no_derivatives=nod, status=status, coeffs=a, bd_cond=bd,
+                           point=pt, transform_table=tab[2], dense_output=interp)
+            cases.append((tag, inp, impl))
+    finally:
+        ode.solve_ivp, ode.solve_bvp = orig
+    for (tag, inp, impl), ans in zip(cases, driver_batch(lines)):
+        ctx.count(["whole", inp], nontrivial=impl[0] != "ok" or (inp["has_tf"] and inp["order"] >= 2), tag=f"{tag}:{impl[0]}")
+        if impl[0] != "ok":
+            good = ans == impl[0]
+        else:
+            d = inp["transform_table"][2] if inp["kind"] == "ivp" else inp["transform_table"]
+            scale = max(1.0, max(abs(v) for v in inp["dense_output"])) * (1 + sum(abs(v) for v in d[2:])) ** 2
+            good = _vec_close(_ok_vec(ans), impl[1], scale)
+        if not good:
+            ctx.fail("corr", f"solve_ode_{inp['kind']}:whole-function",
+                     f"solve_ode_{inp['kind']} with SciPy's integrator replaced by a stub ({tag}): implementation {impl}, "
+                     f"generated model {ans if not ans.startswith('ok') else _ok_vec(ans)}",
+                     witness={"op": "whole", "case": tag, "input": inp, "impl": impl, "model": ans})
 
 
 def corr(ctx: Ctx):
@@ -673,10 +846,10 @@ def corr(ctx: Ctx):
                     scale = (abs(fxv) + sum(abs(v) for v in yj) * max(abs(v) for v in a) * (1 + sum(abs(v) for v in (d or [1]))) ** 3) / \
                         (abs(a[-1]) * min(1.0, abs(d[0]) if d else 1.0) ** order)
                     cases.append(("func", tag, dict(r=float(rs[j]), x=x, a=a, d=d, fx=fxv, y=yj), [float(v) for v in out[:, j]], scale))
-                    if d is None:
-                        lines.append(f"C15.funcd {fvec(a)} {f2b(fxv)} {fvec(yj)}")
+                    if d is None:      # `bfunc*`: the generated text of solve_ode_bvp's own nested `func`
+                        lines.append(f"C15.bfuncd {fvec(a)} {f2b(fxv)} {fvec(yj)}")
                     else:
-                        lines.append(f"C15.func {fvec(a)} {f2b(d[0])} {f2b(d[1])} {f2b(d[2])} {f2b(fxv)} {fvec(yj)}")
+                        lines.append(f"C15.bfunc {fvec(a)} {f2b(d[0])} {f2b(d[1])} {f2b(d[2])} {f2b(fxv)} {fvec(yj)}")
             # the returned callable (transform branch)
             if tf is not None:
                 pts = np.array([rng.uniform(xa, xb) for _ in range(2)])
@@ -703,6 +876,8 @@ def corr(ctx: Ctx):
             ctx.fail("corr", f"solve_ode:{op}:{tag.split(':')[0]}",
                      f"{op} ({tag}) on {inp}: implementation {impl}, model {ans if got is None else got}",
                      witness={"op": op, "case": tag, "input": inp, "impl": impl, "model": got})
+    _corr_whole_functions(ctx, ode)
+    _corr_container_kinds(ctx, ode)
     # argument checks of the public functions
     for bad_call, exc, what in (
         (lambda: ode.solve_ode_ivp((0.1, 1.0), lambda x: x, [1.0, 1.0, 1.0], [1.0]), ValueError, "len(y0) != order"),
@@ -721,37 +896,68 @@ def corr(ctx: Ctx):
 # ----------------------------------------------------------------------------------------------------------------
 # oracle: manufactured solutions on the implementation (EXPLORATION of the accuracy clause)
 # ----------------------------------------------------------------------------------------------------------------
-def oracle(ctx: Ctx, budget: str):
+def oracle(ctx: Ctx, budget: str, only=None):
+    """`only` = {"orders": {..}, "kinds": {"ivp", "bvp"}} restricts the run (used by oracle_at)."""
     rng = ctx.rng
     cat = transforms_catalogue()
     names = list(cat)
     large = budget == "large"
     pts_n = 9
+    orders_on = sorted((only or {}).get("orders", {1, 2, 3}))
+    kinds_on = (only or {}).get("kinds", {"ivp", "bvp"})
+    nfail0 = len(ctx.failures)
+
+    def enough():
+        # a restricted run (oracle_at) stops as soon as it has concrete failing inputs
+        return only is not None and sum(f.kind == "oracle" for f in ctx.failures[nfail0:]) >= 3
+
+    # ---- audit: state between calls / object identity (first: its replay snippets carry the whole call history) ----------
+    _audit_sequences(ctx, cat, only)
 
     # ---- IVP ----------------------------------------------------------------------------------------------------
-    # every transform x every order once (method rotating), plus random extra cases
+    # (a) every method SciPy offers x orders 2, 3 through a non-affine transform; (b) every transform x every order once
+    # (method rotating; one of the three orders integrates backwards, rotating; Python-float / np.float64 spans
+    # alternating; no_derivatives=True for one of three); (c) extreme parameters; (d) random extra cases
     plan = []
-    mlist = ["DOP853", "RK45", "Radau", "LSODA", "BDF"]
-    i = rng.randrange(5)
-    for name in names:
+    mlist = ["DOP853", "RK45", "Radau", "LSODA", "BDF", "RK23"]
+    nonaffine = [n for n in names if n != "none" and not cat[n][2].get("affine")]
+    i = rng.randrange(len(nonaffine))
+    for order in (2, 3):
+        for method in mlist:
+            plan.append((nonaffine[i % len(nonaffine)], order, method, {"sweep": True, "nod": True, "backward": i % 2 == 1, "np_span": i % 4 >= 2}))
+            i += 5
+    i = rng.randrange(6)
+    for ni, name in enumerate(names):
         for order in (1, 2, 3):
-            plan.append((name, order, mlist[i % 5]))
-            i += 1
-    extra = 400 if large else ctx.n(80, 900)
+            plan.append((name, order, mlist[(i + 7 * ni + order) % 6],
+                         {"sweep": True, "backward": (ni + order) % 3 == 0, "np_span": bool(cat[name][2].get("np_span")) or (ni + order) % 2 == 0,
+                          "nod": (ni + 2 * order) % 3 == 0}))
+        if cat[name][2].get("decreasing"):               # decreasing transforms: every order in the other direction too
+            for order in (1, 2, 3):
+                plan.append((name, order, mlist[(i + 7 * ni + order + 3) % 6], {"sweep": True, "backward": (ni + order) % 3 != 0}))
+    for label, prob in extreme_ivp_problems(rng, cat, large or ctx.thorough):
+        plan.append((prob["tfname"], len(prob["coeffs"]) - 1, prob["method"], {"prob": prob, "extreme": label, "sweep": True, "tol_factor": 3.0}))
+    extra = (150 if only else 400) if large else ctx.n(50, 900)
     for _ in range(extra):
-        plan.append((rng.choice(names), rng.choice([1, 2, 3, 3]), rng.choice(mlist + ["RK23"])))
+        plan.append((rng.choice(names), rng.choice([o for o in [1, 2, 3, 3] if o in orders_on]), rng.choice(mlist),
+                     {"backward": rng.random() < 0.25, "nod": rng.random() < 0.1}))
+    plan = [p for p in plan if p[1] in orders_on] if "ivp" in kinds_on else []
     timeouts = 0
-    for name, order, method in plan:
+    for name, order, method, opt in plan:
         if timeouts >= 4:
             ctx.info("IVP exploration stopped after 4 solves that did not finish within the time limit")
             break
-        prob = gen_problem(rng, order, name, cat)
+        if enough():
+            break
+        prob = opt.get("prob") or gen_problem(rng, order, name, cat)
         rt = METHODS[method]
         prob.update(method=method, rtol=rt, atol=rt * 1e-2)
-        if rng.random() < 0.15 and not cat[name][2].get("np_span"):
-            prob["span"] = prob["span"][::-1]           # integrate backwards
-        tol = IVP_FACTOR * rt
-        key = f"ode.solve_ode_ivp:order{order}:{name}"
+        if "prob" not in opt:
+            prob["np_span"] = bool(opt.get("np_span", prob["np_span"]))
+            if opt.get("backward"):
+                prob["span"] = prob["span"][::-1]           # integrate backwards
+        tol = IVP_FACTOR * rt * opt.get("tol_factor", 1.0)
+        key = f"ode.solve_ode_ivp:order{order}:{name}" if "extreme" not in opt else f"ode.solve_ode_ivp:extreme:{opt['extreme']}"
         ctx.count(["ivp", prob], nontrivial=nontrivial_problem(prob, cat), tag=f"oracle:ivp:order{order}:{method}")
         pts = np.linspace(prob["span"][0], prob["span"][1], pts_n)
         try:
@@ -769,6 +975,9 @@ def oracle(ctx: Ctx, budget: str):
                      f"the exact solution: relative errors of [y, y', ..][:order] = {errs} > {tol}",
                      witness={"problem": prob, "errors": errs, "tolerance": tol}, snippet=snippet_ivp(prob, tol))
             continue
+        # the same callable on an unsorted array with end points and repeats, and one point at a time; raw shapes
+        if opt.get("sweep") or rng.random() < 0.2:
+            _audit_returned_callable(ctx, prob, sol, "solve_ode_ivp", False, tol)
         # prescribed initial values (with respect to the ORIGINAL variable)
         x0 = prob["span"][0]
         at0 = np.atleast_2d(sol(np.array([x0])))[:, 0]
@@ -790,7 +999,7 @@ def oracle(ctx: Ctx, budget: str):
                 timeouts += isinstance(e, SolveTimeout)
                 ctx.fail("oracle", f"ode.solve_ode_ivp:order{order}:none", f"direct solve raised {type(e).__name__}: {e}", witness=prob)
         # no_derivatives=True returns y only
-        if prob["tf"] and rng.random() < 0.2:
+        if opt.get("nod") and (prob["tf"] or opt.get("sweep")):
             try:
                 with time_limit(SOLVE_TIME_LIMIT):
                     s2 = _ns["solve_ode_ivp"](_ns["span_of"](prob), rhs(prob), [coeff_fn(c) for c in prob["coeffs"]], want0,
@@ -800,35 +1009,43 @@ def oracle(ctx: Ctx, budget: str):
                 timeouts += isinstance(e, SolveTimeout)
                 ctx.fail("oracle", key, f"solve_ode_ivp(no_derivatives=True) raised {type(e).__name__}: {e}", witness=prob)
                 continue
+            if not prob["tf"]:
+                o2 = o2[0] if o2.shape == (order, pts_n) else o2[None]      # without a transform the option has no effect (documented)
             if o2.shape != (pts_n,) or np.max(np.abs(o2 - out[0])) > 1e-12 * (1 + np.max(np.abs(out[0]))):
-                ctx.fail("oracle", key, f"solve_ode_ivp(no_derivatives=True) does not return row 0 of the full answer (shape {o2.shape})",
-                         witness=prob)
+                ctx.fail("oracle", f"ode.solve_ode_ivp:no_derivatives", f"solve_ode_ivp(no_derivatives=True) does not return row 0 of the full answer (shape {o2.shape})",
+                         witness=prob, snippet=snippet_nod(prob, "ivp"))
+            else:
+                _audit_returned_callable(ctx, prob, s2, "solve_ode_ivp", True, tol)
 
     # ---- BVP ----------------------------------------------------------------------------------------------------
+    # every transform x every order once, the kind of the condition set rotating (value conditions, derivative
+    # conditions at both ends, everything at one end, second-derivative conditions; well-posedness is checked
+    # independently of the library by _bvp_functional_cond); extreme parameters; random extra cases
     plan = []
-    for name in names:
+    k0 = rng.randrange(len(BC_KINDS))
+    for ni, name in enumerate(names):
         if cat[name][2].get("no_bvp"):
             continue
         for order in (1, 2, 3):
-            plan.append((name, order))
-    for _ in range(300 if large else ctx.n(60, 700)):
+            plan.append((name, order, {"sweep": True, "bc_kind": BC_KINDS[(k0 + ni + 2 * order) % len(BC_KINDS)], "nod": (ni + order) % 3 == 0}))
+    for label, prob in extreme_bvp_problems(rng, cat, large or ctx.thorough):
+        plan.append((prob["tfname"], len(prob["coeffs"]) - 1, {"prob": prob, "extreme": label, "sweep": True, "tol_factor": 5.0}))
+    for _ in range((120 if only else 300) if large else ctx.n(40, 700)):
         name = rng.choice(names)
         if not cat[name][2].get("no_bvp"):
-            plan.append((name, rng.choice([1, 2, 3, 3])))
+            plan.append((name, rng.choice([o for o in [1, 2, 3, 3] if o in orders_on]), {"bc_kind": rng.choice(BC_KINDS), "nod": rng.random() < 0.15}))
+    plan = [p for p in plan if p[1] in orders_on] if "bvp" in kinds_on else []
     timeouts = 0
-    for name, order in plan:
+    for name, order, opt in plan:
         if timeouts >= 4:
             ctx.info("BVP exploration stopped after 4 solves that did not finish within the time limit")
             break
-        prob = gen_problem(rng, order, name, cat)
-        pairs = [(i, j) for i in (0, 1) for j in range(order)]
-        while True:
-            sel = rng.sample(pairs, order)
-            if any(j == 0 for _, j in sel):
-                break
-        prob.update(bc=[list(p) for p in sel], nmesh=rng.choice([8, 12, 20]), tol=BVP_TOL, max_nodes=20000,
-                    reverse_mesh=bool(cat[name][2].get("decreasing")))
-        key = f"ode.solve_ode_bvp:order{order}:{name}"
+        if enough():
+            break
+        prob = opt.get("prob") or _gen_bvp_problem(rng, order, name, cat, opt["bc_kind"])
+        key = f"ode.solve_ode_bvp:order{order}:{name}" if "extreme" not in opt else f"ode.solve_ode_bvp:extreme:{opt['extreme']}"
+        ctx.tagc(f"oracle:bvp:conditions:{prob.get('bc_kind', 'given')}")
+        acc = BVP_ACCEPT * opt.get("tol_factor", 1.0) * cat[name][2].get("bvp_tol_factor", 1.0)
         ctx.count(["bvp", prob], nontrivial=nontrivial_problem(prob, cat), tag=f"oracle:bvp:order{order}")
         pts = np.linspace(prob["span"][0], prob["span"][1], pts_n)
         try:
@@ -838,35 +1055,37 @@ def oracle(ctx: Ctx, budget: str):
         except Exception as e:
             timeouts += isinstance(e, SolveTimeout)
             ctx.fail("oracle", key, f"solve_ode_bvp raised {type(e).__name__}: {e} on an order-{order} problem ({prob['tf'] or 'no transform'})",
-                     witness=prob, snippet=snippet_bvp(prob, BVP_ACCEPT))
+                     witness=prob, snippet=snippet_bvp(prob, acc))
             continue
-        if max(errs) > BVP_ACCEPT:
+        if max(errs) > acc:
             ctx.fail("oracle", key,
-                     f"solve_ode_bvp order {order} through {prob['tf'] or 'no transform'} (tol {BVP_TOL}): relative errors of [y, y', ..] = {errs} > {BVP_ACCEPT}",
-                     witness={"problem": prob, "errors": errs, "bd_cond": bd}, snippet=snippet_bvp(prob, BVP_ACCEPT))
+                     f"solve_ode_bvp order {order} through {prob['tf'] or 'no transform'} (tol {BVP_TOL}): relative errors of [y, y', ..] = {errs} > {acc}",
+                     witness={"problem": prob, "errors": errs, "bd_cond": bd}, snippet=snippet_bvp(prob, acc))
             continue
+        if opt.get("sweep") or rng.random() < 0.2:
+            _audit_returned_callable(ctx, prob, sol, "solve_ode_bvp", False, acc)
         # prescribed boundary conditions: value conditions on y itself; derivative conditions, mapped back to x
         mesh = mesh_of(prob) if prob["tf"] else np.linspace(prob["span"][0], prob["span"][1], prob["nmesh"])
         ends = [float(mesh[0]), float(mesh[-1])]
         for (i, j, c) in bd:
             got = float(np.atleast_2d(sol(np.array([ends[i]])))[j, 0])
             want = float(y_deriv(prob["y"], j)(ends[i]))
-            if abs(got - want) > 1e-6 * (1 + abs(want)):
+            if abs(got - want) > acc * (1 + abs(want)):
                 ctx.fail("oracle", key, f"solve_ode_bvp: boundary condition ({i},{j}) not met in the original variable: {got} vs {want}",
-                         witness={"problem": prob, "bd_cond": bd}, snippet=snippet_bvp(prob, BVP_ACCEPT))
+                         witness={"problem": prob, "bd_cond": bd}, snippet=snippet_bvp(prob, acc))
         if prob["tf"]:
             try:
                 with time_limit(SOLVE_TIME_LIMIT):
                     sold, _ = run_bvp(prob, tf=None)
                     outd = np.atleast_2d(sold(pts))
                 diff = max(float(np.max(np.abs(out[k] - outd[k])) / (1 + np.max(np.abs(outd[k])))) for k in range(order))
-                if diff > 2 * BVP_ACCEPT:
+                if diff > 2 * acc:
                     ctx.fail("oracle", key, f"solve_ode_bvp: through {prob['tf']} differs from the direct solve by {diff}",
-                             witness={"problem": prob, "difference": diff}, snippet=snippet_bvp(prob, BVP_ACCEPT))
+                             witness={"problem": prob, "difference": diff}, snippet=snippet_bvp(prob, acc))
             except Exception as e:
                 timeouts += isinstance(e, SolveTimeout)
                 ctx.fail("oracle", f"ode.solve_ode_bvp:order{order}:none", f"direct solve raised {type(e).__name__}: {e}", witness=prob)
-            if rng.random() < 0.3:
+            if opt.get("nod"):
                 try:
                     with time_limit(SOLVE_TIME_LIMIT):
                         s2, _ = run_bvp(prob, no_derivatives=True)       # the default of solve_ode_bvp
@@ -876,5 +1095,872 @@ def oracle(ctx: Ctx, budget: str):
                     ctx.fail("oracle", key, f"solve_ode_bvp(no_derivatives=True) raised {type(e).__name__}: {e}", witness=prob)
                     continue
                 if o2.shape != (pts_n,) or np.max(np.abs(o2 - out[0])) > 1e-9 * (1 + np.max(np.abs(out[0]))):
-                    ctx.fail("oracle", key, f"solve_ode_bvp(no_derivatives=True) does not return y (shape {o2.shape})", witness=prob)
+                    ctx.fail("oracle", "ode.solve_ode_bvp:no_derivatives", f"solve_ode_bvp(no_derivatives=True) does not return y (shape {o2.shape})",
+                             witness=prob, snippet=snippet_nod(prob, "bvp"))
+                else:
+                    _audit_returned_callable(ctx, prob, s2, "solve_ode_bvp", True, acc)
 
+    # ---- audit: container kinds and dtypes of every argument ----------------------------------------------------------
+    if not enough():
+        _audit_containers(ctx, only)
+
+
+
+# ================================================================================================================
+# round 2, part A: audits of the generators — state carried between calls / object identity, container kinds and
+# dtypes of every argument, evaluation of the returned callable on several points at once, boundary-condition sets,
+# extreme parameters.  AUDIT_HELPERS is (after HELPERS) the header of the replay snippets of these cases.
+# ================================================================================================================
+AUDIT_HELPERS = r'''
+class Violation(AssertionError):
+    """AssertionError that carries the class of the violation (it becomes part of the failure key)."""
+    def __init__(self, tag, msg):
+        super().__init__(f'[{tag}] {msg}')
+        self.tag = tag
+
+def freeze(v, depth=0):
+    """A comparable deep copy of caller data: arrays by dtype/shape/bytes, containers by kind, callables by identity."""
+    if isinstance(v, np.ndarray):
+        return ('ndarray', v.dtype.str, v.shape, v.tobytes())
+    if isinstance(v, (list, tuple)):
+        return (type(v).__name__, [freeze(u, depth + 1) for u in v])
+    if isinstance(v, (bool, int, float, np.generic, str)) or v is None:
+        return (type(v).__name__, repr(v))
+    if callable(v) and not hasattr(v, 'transform'):
+        return ('callable', id(v))
+    if depth < 3 and hasattr(v, '__dict__'):
+        return (type(v).__name__, sorted((k, freeze(u, depth + 1)) for k, u in vars(v).items()))
+    return (type(v).__name__, id(v))
+
+def changed(objs, snap):
+    return [k for k, v in objs.items() if freeze(v) != snap[k]]
+
+class EchoFx:
+    """f(x) = x, returning the very array it is given; remembers every array it saw together with a copy."""
+    def __init__(self):
+        self.seen = []
+    def __call__(self, x):
+        if len(self.seen) < 20000:
+            self.seen.append((x, np.array(x, copy=True)))
+        return x
+    def modified(self):
+        return [(np.asarray(b).tolist(), np.asarray(a).tolist()) for a, b in self.seen if not np.array_equal(a, b)][:2]
+
+def _check_echo(fx, what):
+    if isinstance(fx, EchoFx) and fx.modified():
+        raise Violation('callback-argument', f'{what}: the array handed to fx (and returned by it) was modified afterwards: (was, is) = {fx.modified()}')
+
+# ---- constant coefficients with known characteristic roots: an exact solution for ANY initial data ---------------
+ROOTS = {1: [0.5], 2: [0.5, -1.5], 3: [0.5, -1.5, -0.5]}
+COEF = {1: [-0.5, 1.0], 2: [-0.75, 1.0, 1.0], 3: [-0.375, -0.25, 1.5, 1.0]}     # prod_k (D - root_k); exact in float32
+
+def cc_particular(CO, C, C1):
+    """y_p = al*x + be solves sum_k CO[k] y^(k) = C + C1*x"""
+    al = C1 / CO[0]
+    return al, (C - CO[1] * al) / CO[0]
+
+def cc_rows(order, amp, x0, al, be):
+    lam = ROOTS[order]
+    def f(x):
+        x = np.asarray(x, dtype=float)
+        out = np.array([sum(amp[k] * lam[k] ** j * np.exp(lam[k] * (x - x0)) for k in range(order)) for j in range(order)])
+        out[0] = out[0] + al * x + be
+        if order > 1:
+            out[1] = out[1] + al
+        return out
+    return f
+
+def cc_exact_ivp(order, CO, C, C1, x0, y0):
+    al, be = cc_particular(CO, C, C1)
+    V = np.array([[l ** j for l in ROOTS[order]] for j in range(order)], dtype=float)
+    b = np.array([float(v) for v in y0])
+    b[0] -= al * x0 + be
+    if order > 1:
+        b[1] -= al
+    return cc_rows(order, np.linalg.solve(V, b), x0, al, be)
+
+def cc_bvp_data(order, bc, amp, CO, C, C1, ends, tf):
+    """(i, j, value) of the exact solution; with a transform, derivative data are w.r.t. r = g(x) (as documented)."""
+    al, be = cc_particular(CO, C, C1)
+    rows = cc_rows(order, amp, ends[0], al, be)
+    out = []
+    for i, j in bc:
+        xe = float(ends[i])
+        yx = [float(v) for v in rows(np.array([xe]))[:, 0]]
+        if tf is not None and j >= 1:
+            g1, g2 = float(tf.deriv(np.array([xe]))[0]), float(tf.deriv2(np.array([xe]))[0])
+            Y1 = yx[1] / g1
+            val = Y1 if j == 1 else (yx[2] - g2 * Y1) / g1 ** 2
+        else:
+            val = yx[j]
+        out.append((int(i), int(j), float(val)))
+    return out, rows
+
+def cc_env(case):
+    order = case['order']
+    env = dict(globals())
+    env.update(ORDER=order, CO=[case.get('scale', 1.0) * a for a in COEF[order]], C=case.get('C', 1.0),
+               C1=case.get('C1', 0.0), Y0=list(case.get('y0', [1.5, -0.25, 0.75]))[:order])
+    return env
+
+CANON_FX = 'lambda x: C + C1 * np.asarray(x, dtype=float)'
+CANON_IVP = {'span': '(1.0, 2.0)', 'y0': 'list(Y0)', 'coeffs': 'list(CO)', 'fx': CANON_FX}
+CANON_BVP = {'x': 'np.linspace(1.0, 2.0, 9)', 'bd': '[list(t) for t in BD]', 'coeffs': 'list(CO)', 'fx': CANON_FX}
+UNSORTED7 = [3, 0, 6, 1, 5, 2, 4]
+
+def _typed_compare(what, R, E, outs, eq_tol, acc_tol):
+    scale = 1 + np.max(np.abs(E))
+    if R.shape != E.shape or not np.max(np.abs(R - E)) <= acc_tol * scale:
+        raise Violation('canonical', f'float64/list arguments: result off the exact solution by {np.max(np.abs(R - E)) / scale:.3g} (shape {R.shape})')
+    if outs[0].shape != R.shape or not np.max(np.abs(outs[0] - R)) <= eq_tol * scale:
+        raise Violation('container', f'{what}: result differs from the computation with float64/list arguments by '
+                        f'{(np.max(np.abs(outs[0] - R)) / scale) if outs[0].shape == R.shape else outs[0].shape} (allowed {eq_tol})')
+    if not np.array_equal(outs[0], outs[1]):
+        raise Violation('repeat-call', f'{what}: a second solve with the very same argument objects gives another answer '
+                        f'(difference {np.max(np.abs(outs[0] - outs[1]))})')
+
+def check_typed_ivp(case):
+    """case: order, tf (text or ''), scale, C, C1, y0 numbers, method, and `over`: text of the arguments that deviate
+    from the canonical call (tuple-of-floats span, list y0, list of float coefficients, float64 right-hand side).
+    The variant must (1) leave the caller's objects unchanged, (2) equal the canonical computation, (3) repeat."""
+    order, env = case['order'], cc_env(case)
+    tf = eval(case['tf'], env) if case['tf'] else None
+    kw = dict(method=case.get('method', 'DOP853'), rtol=1e-10, atol=1e-12)
+    ref_a = {k: eval(v, env) for k, v in CANON_IVP.items()}
+    if 'span' in case['over']:
+        sp = eval(case['over']['span'], env)
+        ref_a['span'] = (float(sp[0]), float(sp[1]))
+    x0, x1 = ref_a['span']
+    if 'y0' in case['over']:
+        env['Y0'] = [float(v) for v in eval(case['over']['y0'], env)]
+        ref_a['y0'] = list(env['Y0'])
+    pts = np.linspace(x0, x1, 7)[UNSORTED7]
+    R = np.atleast_2d(solve_ode_ivp(ref_a['span'], ref_a['fx'], ref_a['coeffs'], ref_a['y0'], tf, **kw)(pts))
+    E = cc_exact_ivp(order, env['CO'], env['C'], env['C1'], x0, env['Y0'])(pts)
+    txt = dict(CANON_IVP); txt.update(case['over'])
+    a = {k: eval(v, env) for k, v in txt.items()}
+    snap = {k: freeze(v) for k, v in a.items()}
+    outs = []
+    for rep in range(2):
+        try:
+            s = solve_ode_ivp(a['span'], a['fx'], a['coeffs'], a['y0'], tf, **kw)
+        except tuple(eval(n) for n in case.get('may_raise', [])) as e:
+            return f'rejected:{type(e).__name__}'
+        outs.append(np.atleast_2d(s(pts)))
+        bad = changed(a, snap)
+        if bad:
+            raise Violation('caller-data', f"{case['what']}: solve_ode_ivp modified the caller's {bad}: now {[a[k] for k in bad]}")
+    _check_echo(a['fx'], case['what'])
+    _typed_compare(case['what'], R, E, outs, case.get('eq_tol', 1e-10), 1e-7)
+    return 'ok'
+
+def check_typed_bvp(case):
+    """as check_typed_ivp for solve_ode_bvp; `bc` = [(i, j)], boundary data from the exact solution with amplitudes `amp`."""
+    order, env = case['order'], cc_env(case)
+    tf = eval(case['tf'], env) if case['tf'] else None
+    xv = eval(case['over'].get('x', CANON_BVP['x']), env)
+    xr = np.array(xv, dtype=float)                         # the canonical mesh: contiguous float64 copy
+    ends = [float(xr[0]), float(xr[-1])]
+    amp = list(case.get('amp', [0.75, -0.5, 0.25]))[:order]
+    env['BD'], rows = cc_bvp_data(order, case['bc'], amp, env['CO'], env['C'], env['C1'], ends, tf)
+    kw = dict(tol=1e-8, max_nodes=20000, no_derivatives=False)
+    ref_a = {k: eval(v, env) for k, v in CANON_BVP.items() if k != 'x'}
+    pts = np.linspace(ends[0], ends[1], 7)[UNSORTED7]
+    R = np.atleast_2d(solve_ode_bvp(xr, ref_a['fx'], ref_a['coeffs'], ref_a['bd'], tf, initial_guess_y=np.zeros((order, xr.size)), **kw)(pts))
+    E = rows(pts)
+    txt = dict(CANON_BVP); txt.update(case['over'])
+    a = {k: eval(v, env) for k, v in txt.items() if k != 'x'}
+    a['x'] = xv
+    a['guess'] = np.zeros((order, xr.size))
+    snap = {k: freeze(v) for k, v in a.items()}
+    outs = []
+    for rep in range(2):
+        try:
+            s = solve_ode_bvp(a['x'], a['fx'], a['coeffs'], a['bd'], tf, initial_guess_y=a['guess'], **kw)
+        except tuple(eval(n) for n in case.get('may_raise', [])) as e:
+            return f'rejected:{type(e).__name__}'
+        outs.append(np.atleast_2d(s(pts)))
+        bad = changed(a, snap)
+        if bad:
+            raise Violation('caller-data', f"{case['what']}: solve_ode_bvp modified the caller's {bad}: now {[a[k] for k in bad]}")
+    _check_echo(a['fx'], case['what'])
+    _typed_compare(case['what'], R, E, outs, case.get('eq_tol', 1e-10), 1e-6)
+    return 'ok'
+
+# ---- the same objects handed to successive solves -------------------------------------------------------------------
+def build_call_objects(prob, y0_kind='list'):
+    order = len(prob['coeffs']) - 1
+    tf = make_tf(prob)
+    y0 = [float(y_deriv(prob['y'], k)(prob['span'][0])) for k in range(order)]
+    mesh = mesh_of(prob)
+    return dict(tf=tf, fx=rhs(prob), coeffs=[coeff_fn(c) for c in prob['coeffs']], y0=np.array(y0) if y0_kind == 'ndarray' else y0,
+                span=span_of(prob), mesh=mesh, bd=[list(t) for t in bvp_conditions(prob, tf)], guess=np.zeros((order, mesh.size)),
+                bd_direct=[list(t) for t in bvp_conditions(prob, None)])
+
+SEQ_STEPS = ['ivp:P', 'bvp:P', 'ivp:Q', 'bvp:Q', 'ivp:P', 'bvp:P', 'bvp-rand:P', 'ivp-nod:P', 'ivp:Q', 'ivp-direct:P', 'ivp-direct:Q',
+             'bvp-nod:Q', 'ivp:P', 'bvp-direct:P', 'bvp-direct:Q', 'bvp:Q', 'bvp:P', 'ivp-direct:P', 'bvp-direct:P']
+
+def check_sequence(seq):
+    """Problems P and Q (the same order, the same interval; when they name the same transform they share ONE transform
+    object) are solved in turn with the same caller objects.  Every answer must be exact within tolerance, equal bit
+    for bit to the first answer of the same call, and the caller's objects must stay as they were."""
+    probs = {'P': seq['P'], 'Q': seq['Q']}
+    objs = {'P': build_call_objects(seq['P'], seq.get('y0_kind', 'list')), 'Q': build_call_objects(seq['Q'], 'ndarray')}
+    if seq['P']['tf'] == seq['Q']['tf']:
+        objs['Q']['tf'] = objs['P']['tf']
+    snap = {n: {k: freeze(v) for k, v in o.items()} for n, o in objs.items()}
+    first = {}
+    for step_no, step in enumerate(seq.get('steps', SEQ_STEPS)):
+        what, n = step.split(':')
+        p, o = probs[n], objs[n]
+        order = len(p['coeffs']) - 1
+        a, b = float(p['span'][0]), float(p['span'][1])
+        pts = np.linspace(a, b, 7)[UNSORTED7]
+        fn = 'solve_ode_ivp' if what.startswith('ivp') else 'solve_ode_bvp'
+        ikw = dict(method=p['method'], rtol=p['rtol'], atol=p['atol'])
+        bkw = dict(tol=p['tol'], max_nodes=p['max_nodes'])
+        tol = 5e3 * p['rtol'] if fn == 'solve_ode_ivp' else 1e-6
+        if what == 'ivp':
+            out = solve_ode_ivp(o['span'], o['fx'], o['coeffs'], o['y0'], o['tf'], **ikw)(pts)
+        elif what == 'ivp-nod':
+            out = solve_ode_ivp(o['span'], o['fx'], o['coeffs'], o['y0'], o['tf'], no_derivatives=True, **ikw)(pts)
+        elif what == 'ivp-direct':
+            out = solve_ode_ivp(o['span'], o['fx'], o['coeffs'], o['y0'], None, **ikw)(pts)
+        elif what == 'bvp':
+            out = solve_ode_bvp(o['mesh'], o['fx'], o['coeffs'], o['bd'], o['tf'], initial_guess_y=o['guess'], no_derivatives=False, **bkw)(pts)
+        elif what == 'bvp-direct':
+            out = solve_ode_bvp(o['mesh'], o['fx'], o['coeffs'], o['bd_direct'], None, initial_guess_y=o['guess'], no_derivatives=False, **bkw)(pts)
+        elif what == 'bvp-nod':
+            out = solve_ode_bvp(o['mesh'], o['fx'], o['coeffs'], o['bd'], o['tf'], initial_guess_y=o['guess'], **bkw)(pts)   # default True
+        elif what == 'bvp-rand':
+            state = np.random.get_state()
+            np.random.seed(seq['np_seed'])
+            try:
+                out = solve_ode_bvp(o['mesh'], o['fx'], o['coeffs'], o['bd'], o['tf'], no_derivatives=False, **bkw)(pts)   # initial_guess_y=None
+            except Exception as e:
+                raise Violation('default-initial-guess', f'step {step_no} ({step}): solve_ode_bvp with initial_guess_y=None raised {type(e).__name__}: {e}')
+            finally:
+                np.random.set_state(state)
+            tol = 1e-5
+        else:
+            raise ValueError(step)
+        out = np.asarray(out)
+        nod = what.endswith('-nod') and o['tf'] is not None
+        if out.shape != ((7,) if nod else (order, 7)):
+            raise Violation('shape', f'step {step_no} ({step}): {fn} returned shape {out.shape}')
+        out2 = out[None, :] if nod else out
+        ex = np.array([y_deriv(p['y'], k)(pts) for k in range(out2.shape[0])])
+        err = float(np.max(np.abs(out2 - ex) / (1 + np.max(np.abs(ex), axis=1))[:, None]))
+        if not err <= tol:
+            raise Violation('default-initial-guess' if what == 'bvp-rand' else 'state-between-calls' if step_no > 0 else 'accuracy',
+                            f'step {step_no} ({step}) of {seq.get("steps", SEQ_STEPS)}: {fn} is off the exact solution by {err:.3g} > {tol}')
+        for m, oo in objs.items():
+            bad = changed(oo, snap[m])
+            if bad:
+                raise Violation('caller-data', f"step {step_no} ({step}): the caller's {bad} of problem {m} was modified: now {[oo[k] for k in bad]}")
+        if what != 'bvp-rand':
+            if step in first and not np.array_equal(first[step][1], out):
+                raise Violation('state-between-calls', f'step {step_no} ({step}): the answer differs from that of the same call at step '
+                                f'{first[step][0]} by {np.max(np.abs(first[step][1] - out))}')
+            first.setdefault(step, (step_no, out))
+    return 'ok'
+
+# ---- the returned callable on several points at once -------------------------------------------------------------------
+def eval_points(prob, fr):
+    a, b = float(prob['span'][0]), float(prob['span'][1])
+    return np.array([a if u == 0.0 else b if u == 1.0 else a + (b - a) * u for u in fr])
+
+def check_callable(prob, sol, nod, fr, tol):
+    """`sol` on an unsorted array (end points exactly, a repeated point, near neighbours) against the exact solution
+    and against its own evaluation one point at a time; shapes (N,) / (order, N)."""
+    order = len(prob['coeffs']) - 1
+    pts = eval_points(prob, fr)
+    keep = pts.copy()
+    full = np.asarray(sol(pts))
+    if not np.array_equal(pts, keep):
+        raise Violation('caller-data', 'the returned callable modified the array of points it was given')
+    only_y = bool(nod and prob['tf'])
+    if full.shape != ((len(pts),) if only_y else (order, len(pts))):
+        raise Violation('shape', f'no_derivatives={nod}, order {order}, {len(pts)} points: returned shape {full.shape}')
+    F = full[None, :] if only_y else full
+    ex = np.array([y_deriv(prob['y'], k)(pts) for k in range(F.shape[0])])
+    scale = 1 + np.max(np.abs(ex), axis=1)
+    err = float(np.max(np.abs(F - ex) / scale[:, None]))
+    if not err <= tol:
+        raise Violation('unsorted-points', f'no_derivatives={nod}: on the points {pts.tolist()} the result is off the exact solution by {err:.3g} > {tol}')
+    for i in range(len(pts)):
+        one = np.asarray(sol(np.array([pts[i]])))
+        if one.shape != ((1,) if only_y else (order, 1)):
+            raise Violation('shape', f'no_derivatives={nod}, order {order}, one point: returned shape {one.shape}')
+        d = float(np.max(np.abs(one.reshape(-1) - F[:, i]) / scale))
+        if not d <= 1e-11:
+            raise Violation('pointwise', f'no_derivatives={nod}: column {i} (x={pts[i]!r}) evaluated with the other points is {F[:, i].tolist()}, '
+                            f'evaluated alone {one.reshape(-1).tolist()}')
+    return 'ok'
+'''
+exec(AUDIT_HELPERS, _ns)
+Violation = _ns["Violation"]
+_AUDIT_HEADER = HELPERS + AUDIT_HELPERS + "\nimport signal; signal.alarm(300)\n"
+
+
+def _guarded(setup, call):
+    """snippet tail: any exception of the library on a legitimate input counts as a failure (AssertionError)"""
+    return (_AUDIT_HEADER + setup + "try:\n    " + call.replace("\n", "\n    ") +
+            "\nexcept AssertionError:\n    raise\nexcept Exception as e:\n    raise AssertionError(f'raised {type(e).__name__}: {e}')\n")
+
+
+def _audit_call(ctx, fn, args, key_of, describe, witness, snippet, case, tag, nontrivial=True):
+    """Run one audit check of AUDIT_HELPERS; a Violation / any exception becomes an oracle failure with a stable key.
+    `key_of(tag)` maps the class of the violation to the failure key."""
+    ctx.count(case, nontrivial=nontrivial, tag=tag)
+    try:
+        with time_limit(SOLVE_TIME_LIMIT):
+            res = _ns[fn](*args)
+        if isinstance(res, str) and res.startswith("rejected"):
+            ctx.tagc(tag + ":" + res)
+        return True
+    except Violation as v:
+        ctx.fail("oracle", key_of(v.tag), f"{describe}: {v}", witness=witness, snippet=snippet)
+    except Exception as e:
+        ctx.fail("oracle", key_of("raised"), f"{describe}: raised {type(e).__name__}: {e}", witness=witness, snippet=snippet)
+    return False
+
+
+# ---- class 2: container kind / dtype of every argument ------------------------------------------------------------------
+_TYPED_TFS_12 = [        # transforms whose domain contains the interval [1, 3] of the typed cases (integers included)
+    "InverseRTransform(BeckeRTransform(0.1, 1.5))",
+    "ExpRTransform(0.1, 5.0, b=4.0)",
+    "InverseRTransform(KnowlesRTransform(0.1, 1.5, 2))",
+    "PowerRTransform(0.1, 5.0, b=4.0)",
+    "InverseRTransform(HandyModRTransform(0.1, 10.0, 3))",
+    "InverseRTransform(MultiExpRTransform(0.1, 1.5))",
+]
+_RO = "(lambda a: (a.setflags(write=False), a)[1])"        # make an array read-only
+
+TYPED_IVP = [
+    # (what, over, extra case fields)
+    ("y0=tuple", {"y0": "tuple(Y0)"}, {}),
+    ("y0=ndarray-float64", {"y0": "np.array(Y0)"}, {}),
+    ("y0=ndarray-float32", {"y0": "np.array(Y0, dtype=np.float32)"}, {}),
+    ("y0=list-of-np.float64", {"y0": "[np.float64(v) for v in Y0]"}, {}),
+    ("y0=list-of-np.float32", {"y0": "[np.float32(v) for v in Y0]"}, {}),
+    ("y0=python-ints", {"y0": "[2, -1, 1][:ORDER]"}, {}),
+    ("y0=tuple-of-ints", {"y0": "(2, -1, 1)[:ORDER]"}, {}),
+    ("y0=ndarray-int64", {"y0": "np.array([2, -1, 1][:ORDER], dtype=np.int64)"}, {}),
+    ("y0=ndarray-int32", {"y0": "np.array([3, 1, -2][:ORDER], dtype=np.int32)"}, {}),
+    ("y0=read-only-array", {"y0": _RO + "(np.array(Y0))"}, {}),
+    ("y0=non-contiguous-array", {"y0": "np.array([1.5, 9.0, -0.25, 9.0, 0.75, 9.0])[:2 * ORDER:2]"}, {}),
+    ("y0=list-of-0d-arrays", {"y0": "[np.array(v) for v in Y0]"}, {}),
+    ("span=list", {"span": "[1.0, 2.0]"}, {}),
+    ("span=ndarray", {"span": "np.array([1.0, 2.0])"}, {}),
+    ("span=np.float64-tuple", {"span": "(np.float64(1.0), np.float64(2.0))"}, {}),
+    ("span=python-ints", {"span": "(1, 2)"}, {}),
+    ("span=python-ints-backward", {"span": "(3, 1)"}, {}),
+    ("span=list-of-ints", {"span": "[1, 3]"}, {}),
+    # np.float32 end points: the transform (its derivatives at x_span[0]) is then evaluated in single precision by
+    # rtransform, the answer carries a 5e-8 error; not a documented input type -> only float32 accuracy is asked for
+    ("span=np.float32-tuple", {"span": "(np.float32(1.0), np.float32(2.5))"}, {"eq_tol_tf": 1e-5}),
+    ("coeffs=tuple", {"coeffs": "tuple(CO)"}, {}),
+    ("coeffs=ndarray-float64", {"coeffs": "np.array(CO)"}, {}),
+    ("coeffs=ndarray-float32", {"coeffs": "np.array(CO, dtype=np.float32)"}, {}),
+    ("coeffs=list-of-np.float32", {"coeffs": "[np.float32(c) for c in CO]"}, {}),
+    ("coeffs=list-of-np.float64", {"coeffs": "[np.float64(c) for c in CO]"}, {}),
+    ("coeffs=python-ints", {"coeffs": "[int(c) for c in CO]"}, {"scale": 8.0, "C": 8.0}),
+    ("coeffs=np.int64", {"coeffs": "[np.int64(c) for c in CO]"}, {"scale": -8.0, "C": 4.0}),
+    ("coeffs=ndarray-int", {"coeffs": "np.array([int(c) for c in CO])"}, {"scale": 8.0, "C": -8.0}),
+    ("coeffs=bool-leading", {"coeffs": "list(CO[:-1]) + [True]"}, {}),
+    ("coeffs=callables-returning-scalar", {"coeffs": "[(lambda x, c=c: c) for c in CO]"}, {}),
+    ("coeffs=callables-returning-array", {"coeffs": "[(lambda x, c=c: np.full(x.shape, c)) for c in CO]"}, {}),
+    ("coeffs=callables-returning-float32-array", {"coeffs": "[(lambda x, c=c: np.full(x.shape, c, dtype=np.float32)) for c in CO]"}, {}),
+    ("coeffs=callables-returning-int-array", {"coeffs": "[(lambda x, c=c: np.full(x.shape, int(c))) for c in CO]"}, {"scale": 8.0, "C": 8.0}),
+    ("coeffs=callables-returning-read-only-array", {"coeffs": "[(lambda x, c=c: " + _RO + "(np.full(x.shape, c))) for c in CO]"}, {}),
+    ("coeffs=callable-returning-cached-array",
+     {"coeffs": "[(lambda x, c=c, m={}: m.setdefault(x.size, np.full(x.shape, c))) for c in CO]"}, {}),
+    ("coeffs=numbers-and-callables-mixed", {"coeffs": "[CO[0], (lambda x: CO[1])] + [(lambda x, c=c: c + 0 * x) for c in CO[2:]]"}, {}),
+    ("fx=int-array", {"fx": "lambda x: np.ones_like(x, dtype=int)"}, {"C": 1.0}),
+    ("fx=float32-array", {"fx": "lambda x: np.full(np.shape(x), 0.75, dtype=np.float32)"}, {"C": 0.75}),
+    ("fx=python-scalar", {"fx": "lambda x: 2.0"}, {"C": 2.0}),
+    ("fx=python-int-scalar", {"fx": "lambda x: 2"}, {"C": 2.0}),
+    ("fx=identity-returns-its-argument", {"fx": "EchoFx()"}, {"C": 0.0, "C1": 1.0}),
+    ("fx=read-only-array", {"fx": "lambda x: " + _RO + "(np.full(np.shape(x), 1.0))"}, {}),
+    ("fx=cached-array", {"fx": "lambda x, m={}: m.setdefault(np.size(x), np.full(np.shape(x), 1.0))"}, {}),
+]
+
+TYPED_BVP = [
+    ("bd_cond=list-of-tuples", {"bd": "[tuple(t) for t in BD]"}, {}),
+    ("bd_cond=tuple-of-tuples", {"bd": "tuple(tuple(t) for t in BD)"}, {}),
+    ("bd_cond=tuple-of-lists", {"bd": "tuple(list(t) for t in BD)"}, {}),
+    ("bd_cond=np.int64-indices", {"bd": "[(np.int64(i), np.int64(j), c) for i, j, c in BD]"}, {"order": 3}),
+    ("bd_cond=np.int32-indices-np.float64-value", {"bd": "[[np.int32(i), np.int32(j), np.float64(c)] for i, j, c in BD]"}, {"order": 3}),
+    ("bd_cond=bool-end-index", {"bd": "[(bool(i), j, c) for i, j, c in BD]"}, {}),
+    ("bd_cond=object-array-rows", {"bd": "[np.array([i, j, c], dtype=object) for i, j, c in BD]"}, {"order": 3}),
+    # (index entries come back as floats: the library rejects them with TypeError - not a documented container)
+    ("bd_cond=float-array-rows", {"bd": "[np.array([i, j, c]) for i, j, c in BD]"}, {"may_raise": ["TypeError", "IndexError"], "order": 3}),
+    ("bd_cond=2d-float-array", {"bd": "np.array(BD)"}, {"may_raise": ["TypeError", "IndexError"], "order": 3}),
+    ("bd_cond=reordered", {"bd": "[list(t) for t in BD][::-1]"}, {}),
+    ("x=float32", {"x": "np.linspace(1.0, 2.0, 9).astype(np.float32)"}, {"eq_tol_tf": 1e-5}),
+    ("x=int-array", {"x": "np.arange(1, 4)"}, {}),
+    ("x=non-contiguous", {"x": "np.linspace(1.0, 3.0, 17)[::2]"}, {}),
+    ("x=read-only", {"x": _RO + "(np.linspace(1.0, 2.0, 9))"}, {}),
+    ("coeffs=tuple", {"coeffs": "tuple(CO)"}, {}),
+    ("coeffs=ndarray-float32", {"coeffs": "np.array(CO, dtype=np.float32)"}, {}),
+    ("coeffs=python-ints", {"coeffs": "[int(c) for c in CO]"}, {"scale": 8.0, "C": 8.0}),
+    ("coeffs=callables-returning-scalar", {"coeffs": "[(lambda x, c=c: c) for c in CO]"}, {}),
+    ("coeffs=callable-returning-cached-array",
+     {"coeffs": "[(lambda x, c=c, m={}: m.setdefault(x.size, np.full(x.shape, c))) for c in CO]"}, {}),
+    ("fx=int-array", {"fx": "lambda x: np.ones_like(x, dtype=int)"}, {"C": 1.0}),
+    ("fx=float32-array", {"fx": "lambda x: np.full(np.shape(x), 0.75, dtype=np.float32)"}, {"C": 0.75}),
+    ("fx=identity-returns-its-argument", {"fx": "EchoFx()"}, {"C": 0.0, "C1": 1.0}),
+    ("fx=read-only-array", {"fx": "lambda x: " + _RO + "(np.full(np.shape(x), 1.0))"}, {}),
+    ("fx=cached-array", {"fx": "lambda x, m={}: m.setdefault(np.size(x), np.full(np.shape(x), 1.0))"}, {}),
+]
+_TYPED_BC = {1: [[(0, 0)], [(1, 0)]], 2: [[(0, 0), (1, 1)], [(0, 1), (1, 0)], [(0, 1), (1, 1)]],
+             3: [[(0, 0), (1, 2), (0, 1)], [(1, 0), (0, 2), (1, 1)], [(0, 2), (1, 2), (0, 0)]]}
+
+
+def _audit_containers(ctx, only=None):
+    rng = ctx.rng
+    kinds = (only or {}).get("kinds", {"ivp", "bvp"})
+    orders = (only or {}).get("orders", {1, 2, 3})
+    reps = ctx.n(1, 3) if not only else 2
+    k = rng.randrange(100)
+    for kind, table in (("ivp", TYPED_IVP), ("bvp", TYPED_BVP)):
+        if kind not in kinds:
+            continue
+        fn = f"solve_ode_{kind}"
+        for what, over, extra in table:
+            for rep in range(reps):
+                # each variant: once directly, once through a (rotating) non-affine transform; orders rotating
+                tfs = _TYPED_TFS_12 if kind == "ivp" else _TYPED_TFS_12[:-1]      # the last one is decreasing: IVP only
+                for tf in ("", tfs[k % len(tfs)]):
+                    k += 1
+                    order = extra.get("order", [3, 2, 3, 2, 1][k % 5])     # (index kinds: order 3, so that a (., 2) condition occurs)
+                    if order not in orders:
+                        order = sorted(orders)[-1]
+                    case = {"order": order, "tf": tf, "what": what, "over": over,
+                            "method": ["DOP853", "RK45", "LSODA", "DOP853", "BDF"][k % 5] if kind == "ivp" else None}
+                    case.update({f: v for f, v in extra.items() if f not in ("order", "eq_tol_tf")})
+                    if tf and "eq_tol_tf" in extra:
+                        case["eq_tol"] = extra["eq_tol_tf"]
+                    if kind == "bvp":
+                        case["bc"] = _TYPED_BC[order][k % len(_TYPED_BC[order])]
+                        case["amp"] = [rng.randrange(-8, 9) / 8 or 0.5 for _ in range(3)]
+                    else:
+                        case["y0"] = [rng.randrange(-16, 17) / 8 for _ in range(3)]
+
+                    def key_of(tag, fn=fn, what=what):
+                        return {"caller-data": f"ode.{fn}:caller-data", "repeat-call": f"ode.{fn}:repeat-call",
+                                "canonical": f"ode.{fn}:constant-coefficients", "callback-argument": f"ode.{fn}:callback-argument"
+                                }.get(tag, f"ode.{fn}:container:{what}")
+                    _audit_call(ctx, f"check_typed_{kind}", (case,), key_of,
+                                f"{fn}, order {order}, {tf or 'no transform'}, argument kind {what}",
+                                case, _guarded(f"case = {case!r}\n", f"check_typed_{kind}(case)"),
+                                ["typed", kind, case], f"audit:{kind}:container:{what.split('=')[0]}", nontrivial=bool(tf))
+
+
+# ---- class 1/3: the same caller objects over successive solves ------------------------------------------------------------
+def _bvp_functional_cond(prob, bc):
+    """Conditioning of the boundary-value problem, independently of grid.ode: fundamental matrix of the homogeneous
+    equation by SciPy in the ORIGINAL variable, boundary functionals as documented (derivatives w.r.t. r if a transform
+    is given).  Used only to keep generated condition sets well-posed."""
+    from scipy.integrate import solve_ivp
+    order = len(prob["coeffs"]) - 1
+    mesh = mesh_of(prob)
+    ends = [float(mesh[0]), float(mesh[-1])]
+    tf = make_tf(prob)
+
+    def f(x, Y):
+        Y = Y.reshape(order, order)
+        a = [float(coeff_val(c, np.array([x]))[0]) for c in prob["coeffs"]]
+        last = -sum(a[k] * Y[k] for k in range(order)) / a[order]
+        return np.vstack((Y[1:], last[None, :])).ravel()
+    res = solve_ivp(f, (ends[0], ends[1]), np.eye(order).ravel(), rtol=1e-8, atol=1e-10)
+    phi = [np.eye(order), res.y[:, -1].reshape(order, order)]
+    rows = []
+    for i, j in bc:
+        P = phi[i]
+        if tf is not None and j >= 1:
+            g1, g2 = float(tf.deriv(np.array([ends[i]]))[0]), float(tf.deriv2(np.array([ends[i]]))[0])
+            rows.append(P[1] / g1 if j == 1 else (P[2] - g2 * P[1] / g1) / g1 ** 2)
+        else:
+            rows.append(P[j])
+    F = np.array(rows)
+    F = F / np.max(np.abs(F), axis=1, keepdims=True)
+    return float(np.linalg.cond(F))
+
+
+BC_KINDS = ["mixed", "derivatives-only", "one-end", "with-second-derivative", "mixed", "value-and-derivative-at-both-ends"]
+
+
+def _choose_bc(rng, order, kind):
+    pairs = [(i, j) for i in (0, 1) for j in range(order)]
+    if order == 1:
+        return [rng.choice(pairs)]
+    if kind == "derivatives-only":                       # e.g. (0,1),(1,1); order 3: + a second-derivative condition
+        sel = [(0, 1), (1, 1)] if order == 2 else rng.choice([[(0, 1), (1, 1), (0, 2)], [(0, 1), (1, 1), (1, 2)], [(0, 2), (1, 2), (0, 1)], [(0, 2), (1, 2), (1, 1)]])
+    elif kind == "one-end":                              # IVP-like
+        i = rng.randrange(2)
+        sel = [(i, j) for j in range(order)]
+    elif kind == "with-second-derivative" and order == 3:
+        sel = [(rng.randrange(2), 2)] + rng.sample([(i, j) for i in (0, 1) for j in (0, 1)], 2)
+    elif kind == "value-and-derivative-at-both-ends":
+        sel = [(0, 0), (1, 1)] if order == 2 else [(0, 0), (1, 1), (rng.randrange(2), 2)]
+    else:
+        while True:
+            sel = rng.sample(pairs, order)
+            if any(j == 0 for _, j in sel):
+                break
+    sel = list(sel)
+    rng.shuffle(sel)
+    return sel
+
+
+def _gen_bvp_problem(rng, order, name, cat, kind, max_cond=60.0):
+    """a manufactured BVP whose boundary functionals are well conditioned (checked independently of the library)"""
+    for attempt in range(12):
+        prob = gen_problem(rng, order, name, cat)
+        prob.update(nmesh=rng.choice([8, 12, 20]), tol=BVP_TOL, max_nodes=20000, reverse_mesh=bool(cat[name][2].get("decreasing")))
+        for _ in range(3):
+            sel = _choose_bc(rng, order, kind if attempt < 8 else "mixed")
+            try:
+                cond = _bvp_functional_cond(prob, sel)
+            except Exception:
+                cond = float("inf")
+            if cond <= max_cond:
+                prob.update(bc=[list(p) for p in sel], bc_kind=kind if attempt < 8 else "mixed", bc_cond=cond)
+                return prob
+    prob.update(bc=[[0, j] for j in range(order)], bc_kind="one-end", bc_cond=None)
+    return prob
+
+
+def _audit_sequences(ctx, cat, only=None):
+    rng = ctx.rng
+    orders = sorted((only or {}).get("orders", {1, 2, 3}))
+    names = [n for n in cat if n != "none" and not cat[n][2].get("affine") and not cat[n][2].get("no_bvp")
+             and not cat[n][2].get("decreasing") and not cat[n][2].get("np_span") and not cat[n][2].get("bvp_tol_factor")]
+    nseq = ctx.n(3, 12) if not only else 4
+    k = rng.randrange(100)
+    for s in range(nseq):
+        order = orders[::-1][s % len(orders)]
+        nameP = names[(k + 5 * s) % len(names)]
+        same = s % 2 == 0                           # P and Q through ONE transform object / through different transforms
+        cands = [n for n in names if cat[n][1] == cat[nameP][1] and (n == nameP) == same]
+        nameQ = rng.choice(cands or [nameP])
+        P = _gen_bvp_problem(rng, order, nameP, cat, BC_KINDS[(k + s) % len(BC_KINDS)])
+        Q = _gen_bvp_problem(rng, order, nameQ, cat, BC_KINDS[(k + s + 1) % len(BC_KINDS)])
+        for p, m in ((P, ["DOP853", "RK45", "LSODA", "BDF"][(k + s) % 4]), (Q, ["RK45", "LSODA", "BDF", "DOP853"][(k + s) % 4])):
+            p.update(method=m, rtol=METHODS[m], atol=METHODS[m] * 1e-2)
+        seq = {"P": P, "Q": Q, "y0_kind": ["ndarray", "list"][s % 2], "np_seed": rng.randrange(2 ** 31)}
+
+        def key_of(tag):
+            return {"caller-data": "ode.solve_ode_ivp:caller-data", "shape": "ode.solve_ode:returned-shape",
+                    "default-initial-guess": "ode.solve_ode_bvp:default-initial-guess",
+                    "accuracy": f"ode.solve_ode_ivp:order{order}:{nameP}"}.get(tag, "ode.solve_ode:state-between-calls")
+        _audit_call(ctx, "check_sequence", (seq,), key_of,
+                    f"successive solves with the same caller objects (order {order}, P through {P['tf']}, Q through {Q['tf']})",
+                    seq, _guarded(f"seq = {seq!r}\n", "check_sequence(seq)"), ["sequence", seq], f"audit:sequence:order{order}",
+                    nontrivial=True)
+
+
+def _audit_returned_callable(ctx, prob, sol, fn, nod, tol):
+    """the callable just obtained (no extra solve): unsorted points, end points, repeats; one point at a time"""
+    rng = ctx.rng
+    u = [round(rng.uniform(0.05, 0.9), 3) for _ in range(3)]
+    fr = [u[0], 1.0, u[1], 0.0, u[0], round(u[1] + 0.03, 3), u[2]]
+    runner = "run_ivp(prob)" if fn == "solve_ode_ivp" else "run_bvp(prob)[0]"
+    if nod:
+        runner = ("solve_ode_ivp(span_of(prob), rhs(prob), [coeff_fn(c) for c in prob['coeffs']], "
+                  "[float(y_deriv(prob['y'], k)(prob['span'][0])) for k in range(len(prob['coeffs']) - 1)], make_tf(prob), "
+                  "method=prob['method'], rtol=prob['rtol'], atol=prob['atol'], no_derivatives=True)") if fn == "solve_ode_ivp" \
+            else "run_bvp(prob, no_derivatives=True)[0]"
+    snippet = _guarded(f"prob = {prob!r}\n", f"sol = {runner}\ncheck_callable(prob, sol, {bool(nod)}, {fr!r}, {tol!r})")
+
+    def key_of(tag):
+        return {"shape": f"ode.{fn}:returned-shape", "raised": f"ode.{fn}:returned-callable:raised"}.get(tag, f"ode.{fn}:returned-callable:{tag}")
+    return _audit_call(ctx, "check_callable", (prob, sol, nod, fr, tol), key_of,
+                       f"callable returned by {fn} (order {len(prob['coeffs']) - 1}, {prob['tf'] or 'no transform'}, no_derivatives={nod})",
+                       {"problem": prob, "fractions_of_the_interval": fr}, snippet, ["callable", fn, bool(nod), fr, prob],
+                       f"audit:{fn[10:]}:returned-callable" + (":no_derivatives" if nod else ""), nontrivial=bool(prob["tf"]))
+
+
+def snippet_nod(prob, kind):
+    run = {"ivp": "sol = run_ivp(prob)\n"
+                  "s2 = solve_ode_ivp(span_of(prob), rhs(prob), [coeff_fn(c) for c in prob['coeffs']], "
+                  "[float(y_deriv(prob['y'], k)(prob['span'][0])) for k in range(len(prob['coeffs']) - 1)], make_tf(prob), "
+                  "method=prob['method'], rtol=prob['rtol'], atol=prob['atol'], no_derivatives=True)\n",
+           "bvp": "sol = run_bvp(prob)[0]\ns2 = run_bvp(prob, no_derivatives=True)[0]\n"}[kind]
+    return (HELPERS + f"\nimport signal; signal.alarm(300)\nprob = {prob!r}\n" + run +
+            "p = np.linspace(prob['span'][0], prob['span'][1], 9)\no, o2 = np.atleast_2d(sol(p)), np.asarray(s2(p))\n"
+            "o2 = o2 if prob['tf'] else o2[0]\n"
+            "assert o2.shape == (9,) and np.max(np.abs(o2 - o[0])) <= 1e-9 * (1 + np.max(np.abs(o[0]))), "
+            "f'no_derivatives=True: shape {o2.shape}; row 0 of the full answer {o[0]}, got {o2}'\n")
+
+
+# ---- class 6: extreme but legitimate parameters ----------------------------------------------------------------------------
+def _gentle_solution(rng, length):
+    """a smooth solution whose variation over an interval of the given length stays moderate"""
+    s = min(1.0, 3.0 / length)
+    return {"ce": rng.uniform(-1, 1), "al": rng.uniform(-1.2, 1.2) * s, "cs": rng.uniform(-1, 1), "be": rng.uniform(0.5, 2.5) * s,
+            "ph": rng.uniform(0, 6.28), "p": [rng.uniform(-1, 1), rng.uniform(-1, 1) * s, rng.uniform(-1, 1) * s ** 2, rng.uniform(-1, 1) * s ** 3]}
+
+
+EXTREME_TFS = {
+    # label -> (catalogue entry that carries the flags, constructor text, span of the ORIGINAL variable)
+    "becke-next-to-lower-domain-end": ("BeckeRTransform", "BeckeRTransform(0.1, 1.5)", (-0.999, 0.5)),
+    "becke-towards-upper-domain-end": ("BeckeRTransform", "BeckeRTransform(0.1, 1.5)", (0.0, 0.95)),
+    "knowles3-next-to-lower-domain-end": ("KnowlesRTransform:k=3", "KnowlesRTransform(0.1, 1.5, 3)", (-0.97, 0.0)),
+    "knowles3-towards-upper-domain-end": ("KnowlesRTransform:k=3", "KnowlesRTransform(0.1, 1.5, 3)", (0.0, 0.97)),
+    "handymod3-next-to-upper-domain-end": ("HandyModRTransform:m=3", "HandyModRTransform(0.1, 10.0, 3)", (-0.9, 0.99)),
+    "handymod2-next-to-both-domain-ends": ("HandyModRTransform:m=2", "HandyModRTransform(0.1, 10.0, 2)", (-0.99, 0.99)),
+    "handy2-next-to-lower-domain-end": ("HandyRTransform:m=2", "HandyRTransform(0.1, 1.5, 2)", (-0.99, 0.5)),
+    "multiexp-next-to-both-domain-ends": ("MultiExpRTransform", "MultiExpRTransform(0.1, 1.5)", (-0.99, 0.999)),
+    "inverse-knowles2-r-from-1e-3": ("Inverse(KnowlesRTransform):k=2", "InverseRTransform(KnowlesRTransform(1e-4, 1.5, 2))", (1e-3, 1.0)),
+    "exp-from-the-domain-end-0": ("ExpRTransform", "ExpRTransform(0.1, 5.0, b=4.0)", (0.0, 1.2)),
+    # r over orders of magnitude (long integrations: one of them per quick run, all in the thorough tier)
+    "inverse-becke-r-from-1e-3-to-50": ("Inverse(BeckeRTransform)", "InverseRTransform(BeckeRTransform(1e-4, 1.5))", (1e-3, 50.0)),
+    "inverse-knowles2-r-from-1e-2-to-20": ("Inverse(KnowlesRTransform):k=2", "InverseRTransform(KnowlesRTransform(1e-4, 1.5, 2))", (1e-2, 20.0)),
+    "inverse-handymod3-r-from-1e-3-to-50": ("Inverse(HandyModRTransform):m=3", "InverseRTransform(HandyModRTransform(1e-4, 100.0, 3))", (1e-3, 50.0)),
+    "inverse-multiexp-r-from-1e-3-to-20": ("Inverse(MultiExpRTransform)", "InverseRTransform(MultiExpRTransform(1e-4, 1.5))", (1e-3, 20.0)),
+    "identity-long-span": ("IdentityRTransform", "IdentityRTransform()", (1e-3, 40.0)),
+    "no-transform-long-span": ("none", "", (-20.0, 20.0)),
+    "becke-very-short-span": ("BeckeRTransform", "BeckeRTransform(0.1, 1.5)", (0.25, 0.251)),
+    "inverse-becke-very-short-span": ("Inverse(BeckeRTransform)", "InverseRTransform(BeckeRTransform(0.1, 1.5))", (0.7, 0.7005)),
+}
+# calibration on the unchanged tree (6 seeds, both orders): solve_bvp (tol 1e-8) itself does not reach 1e-7 on these, with or
+# without a transform (long intervals; dY/dr next to a domain end) - they are IVP-only
+BVP_EXTREME_SKIP = {"becke-towards-upper-domain-end", "knowles3-next-to-lower-domain-end", "multiexp-next-to-both-domain-ends",
+                    "identity-long-span", "no-transform-long-span"}
+EXTREME_SCALES = {"equation-times-1e3": 1e3, "equation-times-minus-1e3": -1e3, "equation-times-1e-3": 1e-3}
+
+
+def _extreme_list(rng, cat, more, kind):
+    out = []
+    k = rng.randrange(12)
+    long_r = [l for l in EXTREME_TFS if "-r-from-" in l and "-to-" in l]
+    for label, (name, text, span) in EXTREME_TFS.items():
+        if kind == "bvp" and (cat[name][2].get("no_bvp") or label in BVP_EXTREME_SKIP or label in long_r):
+            continue
+        if label in long_r and not more and label != long_r[k % len(long_r)]:
+            continue
+        for order in ((2, 3) if more else ([2, 3][k % 2],)):
+            k += 1
+            prob = gen_problem(rng, order, name, cat)
+            prob.update(tf=text, span=list(span), y=_gentle_solution(rng, abs(span[1] - span[0])))
+            if abs(span[1] - span[0]) > 5:
+                # long intervals: constant coefficients with decaying / oscillating homogeneous solutions (a growing mode
+                # would amplify the integrator's own error beyond any fixed tolerance: not the library's business)
+                prob["coeffs"] = [{"kind": "const", "c": c} for c in ([1.0, 1.0], [0.5, 0.4, 1.0], [0.5, 1.2, 1.1, 1.0])[order - 1]]
+            out.append((label, prob))
+    # orders of magnitude of the coefficients (the whole equation scaled; one lower coefficient large)
+    for label, s in EXTREME_SCALES.items():
+        k += 1
+        order = [2, 3][k % 2]
+        name = ["BeckeRTransform", "Inverse(KnowlesRTransform):k=3", "HandyModRTransform:m=2", "Inverse(HandyRTransform):m=3"][k % 4]
+        prob = gen_problem(rng, order, name, cat)
+        for c in prob["coeffs"]:
+            for f in (("c",) if c["kind"] == "const" else ("c0", "c1") if c["kind"] == "lin" else ("s",)):
+                c[f] = c[f] * s
+        out.append((label, prob))
+    for label, a0 in (("stiff-restoring-term-1e3", 1e3), ("small-lower-coefficients-1e-3", 1e-3)):
+        k += 1
+        name = ["BeckeRTransform", "Inverse(KnowlesRTransform):k=3", "HandyModRTransform:m=2", "Inverse(HandyRTransform):m=3"][k % 4]
+        prob = gen_problem(rng, 2, name, cat)
+        prob["coeffs"] = [{"kind": "const", "c": a0}, {"kind": "const", "c": a0 * 1e-2 if a0 > 1 else a0}, {"kind": "const", "c": 1.0}]
+        out.append((label, prob))
+    # leading coefficient negative and varying
+    for order in (2, 3):
+        k += 1
+        name = ["KnowlesRTransform:k=2", "Inverse(HandyModRTransform):m=2", "PowerRTransform", "Inverse(BeckeRTransform)"][k % 4]
+        prob = gen_problem(rng, order, name, cat)
+        prob["coeffs"][-1] = {"kind": "trig", "s": -1.0, "c0": rng.uniform(0.8, 2), "c1": rng.uniform(0.3, 0.6) * rng.choice([-1, 1]), "w": rng.uniform(1, 3)}
+        out.append(("leading-coefficient-negative-and-varying", prob))
+    return out
+
+
+def extreme_ivp_problems(rng, cat, more):
+    out = []
+    # the accurate explicit methods (next to a domain end dY/dr is tiny compared with the absolute tolerance of the
+    # low-order implicit ones: BDF/LSODA lose the derivative rows there, with or without the library)
+    methods = ["DOP853", "RK45"]
+    for n, (label, prob) in enumerate(_extreme_list(rng, cat, more, "ivp")):
+        prob["method"] = methods[n % len(methods)] if not label.startswith("stiff") else "Radau"
+        if n % 3 == 1 and prob["tf"] and abs(prob["span"][1] - prob["span"][0]) <= 5:
+            prob["span"] = prob["span"][::-1]          # (backwards over a long interval the decaying modes grow: not done)
+        prob["np_span"] = n % 2 == 1
+        out.append((label, prob))
+    return out
+
+
+def extreme_bvp_problems(rng, cat, more):
+    out = []
+    for n, (label, prob) in enumerate(_extreme_list(rng, cat, more, "bvp")):
+        order = len(prob["coeffs"]) - 1
+        prob.update(nmesh=20, tol=BVP_TOL, max_nodes=20000, reverse_mesh=bool(cat[prob["tfname"]][2].get("decreasing")))
+        for attempt in range(6):
+            sel = _choose_bc(rng, order, BC_KINDS[(n + attempt) % len(BC_KINDS)])
+            try:
+                cond = _bvp_functional_cond(prob, sel)
+            except Exception:
+                cond = float("inf")
+            if cond <= 60.0:
+                prob.update(bc=[list(p) for p in sel], bc_kind="extreme", bc_cond=cond)
+                out.append((label, prob))
+                break
+    return out
+
+
+# ---- 7. a correspondence disagreement -> a concrete failing input of the property ------------------------------------------
+def oracle_at(ctx: Ctx, failure):
+    """Evaluate the property on manufactured problems of the order and kind (IVP / BVP) at which the model and the
+    implementation disagreed: a restricted, dense run of the oracle (real transforms of the catalogue only)."""
+    w = failure.witness if isinstance(failure.witness, dict) else {}
+    key = failure.key or ""
+    orders, kinds = None, {"ivp", "bvp"}
+    if w.get("op") in ("func", "ivpinit", "back", "bc"):
+        case = str(w.get("case", ""))
+        kinds = {"ivp"} if case.startswith("ivp") or w["op"] == "ivpinit" else {"bvp"} if case.startswith("bvp") or w["op"] == "bc" else kinds
+        for o in (1, 2, 3):
+            if f"order{o}" in case:
+                orders = {o}
+        if w["op"] in ("ivpinit", "back") and orders == {1}:
+            orders = {1, 2}
+    elif key.startswith("_transform_ode_from_derivs") and "order" in w:
+        orders = {min(3, max(1, int(w["order"])))}
+    elif key.startswith("_derivative_transformation_matrix") and "order" in w:
+        orders = {min(3, max(2, int(w["order"]) + 1))}       # the (K-1) x (K-1) matrix belongs to an ODE of order K
+    elif key.startswith("sympy.bell"):
+        orders = {2, 3}
+    elif key.startswith("_rearrange_to_explicit_ode") or key.startswith("solve_ode"):
+        orders = {1, 2, 3}
+    if orders is None:
+        return
+    done = ctx.__dict__.setdefault("_c15_oracle_at", [])
+    todo = [(o, k) for o in sorted(orders) for k in sorted(kinds) if (o, k) not in done]
+    for o, k in todo:
+        if sum(f.kind == "oracle" for f in ctx.failures) >= 3:
+            return
+        done.append((o, k))
+        oracle(ctx, "large", only={"orders": {o}, "kinds": {k}})
+
+
+# ---- correspondence: what SciPy is handed for every container kind / dtype / direction of the arguments (no solves) ----------
+def _corr_container_kinds(ctx: Ctx, ode):
+    """t_span and y0 (op C15.ivpinit) and the boundary callback (op C15.bc) captured from solve_ode_ivp / solve_ode_bvp
+    when y0 / x_span / bd_cond / x come as tuples, float32 / integer / read-only / non-contiguous arrays, NumPy scalars,
+    with spans in both directions; the caller's objects must be left as they were."""
+    rng = ctx.rng
+    freeze = _ns["freeze"]
+    rec = {}
+
+    class Res:
+        status = 0
+
+        def __init__(self, K):
+            self.K = K
+
+        def sol(self, r):
+            return np.zeros((self.K, np.size(r)))
+
+    def fake_ivp(func, t_span, y0=None, **kw):
+        rec.update(kind="ivp", t_span=[float(t) for t in t_span], y0=[float(v) for v in np.asarray(y0).ravel()])
+        return Res(len(y0))
+
+    def fake_bvp(func, bc, x, y=None, **kw):
+        rec.update(kind="bvp", bc=bc, mesh=np.array(x, dtype=float))
+        return Res(y.shape[0])
+
+    y0_kinds = [("list", lambda v: list(v)), ("tuple", lambda v: tuple(v)), ("float64-array", lambda v: np.array(v, dtype=float)),
+                ("float32-array", lambda v: np.array(v, dtype=np.float32)), ("list-of-np.float32", lambda v: [np.float32(u) for u in v]),
+                ("read-only-array", lambda v: (lambda a: (a.setflags(write=False), a)[1])(np.array(v, dtype=float))),
+                ("python-ints", lambda v: [int(round(u)) for u in v]), ("int64-array", lambda v: np.array([int(round(u)) for u in v], dtype=np.int64)),
+                ("int32-array", lambda v: np.array([int(round(u)) for u in v], dtype=np.int32))]
+    span_kinds = [("tuple", lambda a, b: (a, b)), ("list", lambda a, b: [a, b]), ("array", lambda a, b: np.array([a, b])),
+                  ("np.float64-tuple", lambda a, b: (np.float64(a), np.float64(b)))]
+    bd_kinds = [("list-of-lists", lambda bd: [list(t) for t in bd]), ("list-of-tuples", lambda bd: [tuple(t) for t in bd]),
+                ("tuple-of-tuples", lambda bd: tuple(tuple(t) for t in bd)),
+                ("np.int64-indices", lambda bd: [(np.int64(i), np.int64(j), c) for i, j, c in bd]),
+                ("np.int32-indices-np.float64-value", lambda bd: [[np.int32(i), np.int32(j), np.float64(c)] for i, j, c in bd]),
+                ("bool-end-index", lambda bd: [(bool(i), j, c) for i, j, c in bd])]
+    mesh_kinds = [("float64", lambda m: m), ("read-only", lambda m: (lambda a: (a.setflags(write=False), a)[1])(m.copy())),
+                  ("non-contiguous", lambda m: np.repeat(m, 2)[::2]), ("float32", lambda m: m.astype(np.float32))]
+    orig = (ode.solve_ivp, ode.solve_bvp)
+    cases, lines = [], []
+    k = rng.randrange(1000)
+    try:
+        ode.solve_ivp, ode.solve_bvp = fake_ivp, fake_bvp
+        for it in range(ctx.n(54, 540)):
+            k += 1
+            order = 1 + it % 3
+            tf, (lo, hi) = _real_transforms()[(k // 3) % len(_real_transforms())]
+            xa = rng.uniform(lo, lo + 0.3 * (hi - lo))
+            xb = rng.uniform(lo + 0.6 * (hi - lo), hi)
+            if it % 2:
+                xa, xb = xb, xa                                   # backward integration
+            coeffs = [rng.choice([-1, 1]) * rng.uniform(0.5, 2) for _ in range(order + 1)]
+            fx = lambda x: 1.0 + 0 * x
+            rec.clear()
+            if it % 9 < 6:
+                yk, ymake = y0_kinds[k % len(y0_kinds)]
+                sk, smake = span_kinds[(k // 2) % len(span_kinds)]
+                vals = [rng.randrange(-24, 25) / 8 for _ in range(order)]
+                y0 = ymake(vals)
+                y0f = [float(v) for v in y0]
+                span = smake(xa, xb)
+                tag = f"ivp:real:order{order}:y0={yk}:span={sk}" + (":backward" if it % 2 else "")
+                snap = (freeze(y0), freeze(span), freeze(coeffs))
+                try:
+                    ode.solve_ode_ivp(span, fx, coeffs, y0, tf)
+                except Exception as e:
+                    ctx.fail("corr", "solve_ode:ivpinit:ivp", f"{tag}: solve_ode_ivp raised {type(e).__name__}: {e}",
+                             witness={"op": "ivpinit", "case": tag, "span": [xa, xb], "y0": y0f, "transform": repr(type(tf).__name__)})
+                    continue
+                if (freeze(y0), freeze(span), freeze(coeffs)) != snap:
+                    ctx.fail("corr", "solve_ode_ivp:caller-data", f"{tag}: the caller's y0 / x_span / coeffs were modified: y0 = {y0!r}, x_span = {span!r}",
+                             witness={"op": "ivpinit", "case": tag, "y0_before": y0f, "y0_after": y0, "span": [xa, xb]})
+                d0 = [float(np.atleast_1d(f(np.array([xa])))[0]) for f in (tf.deriv, tf.deriv2, tf.deriv3)]
+                t0, t1 = float(tf.transform(np.array([xa]))[0]), float(tf.transform(np.array([xb]))[0])
+                cases.append(("ivpinit", tag, dict(y0=y0f, d=d0, span=[xa, xb]), rec.get("t_span", []) + rec.get("y0", []),
+                              max(1.0, max(abs(v) for v in y0f)) * max(1.0, abs(d0[1])) / min(1.0, abs(d0[0])) ** 3))
+                lines.append(f"C15.ivpinit {f2b(xa)} {f2b(xb)} {f2b(t0)} {f2b(t1)} {f2b(d0[0])} {f2b(d0[1])} {f2b(d0[2])} {fvec(y0f)}")
+            else:
+                bk, bmake = bd_kinds[k % len(bd_kinds)]
+                mk, mmake = mesh_kinds[(k // 2) % len(mesh_kinds)]
+                order = 3 if "indices" in bk or "bool" in bk else order
+                coeffs = coeffs + [1.0] * (order + 1 - len(coeffs))
+                pairs = [(i, j) for i in (0, 1) for j in range(order)]
+                sel = rng.sample(pairs, order)
+                if order == 3 and not any(j == 2 for _, j in sel):
+                    sel[0] = (rng.randrange(2), 2) if (0, 2) not in sel and (1, 2) not in sel else sel[0]
+                plain = [(i, j, rng.uniform(-2, 2)) for i, j in sel]
+                bd = bmake(plain)
+                mesh0 = np.linspace(min(xa, xb), max(xa, xb), 6)
+                mesh = mmake(mesh0)
+                tag = f"bvp:real:order{order}:bd={bk}:x={mk}"
+                snap = (freeze(bd), freeze(mesh))
+                try:
+                    ode.solve_ode_bvp(mesh, fx, coeffs, bd, tf, initial_guess_y=np.zeros((order, 6)))
+                    ya = [rng.uniform(-2, 2) for _ in range(order)]
+                    yb = [rng.uniform(-2, 2) for _ in range(order)]
+                    res = [float(v) for v in rec["bc"](np.array(ya), np.array(yb))]
+                except Exception as e:
+                    ctx.fail("corr", "solve_ode:bc:bvp", f"{tag}: solve_ode_bvp / its boundary callback raised {type(e).__name__}: {e}",
+                             witness={"op": "bc", "case": tag, "bd": plain})
+                    continue
+                if (freeze(bd), freeze(mesh)) != snap:
+                    ctx.fail("corr", "solve_ode_bvp:caller-data", f"{tag}: the caller's bd_cond / x were modified",
+                             witness={"op": "bc", "case": tag, "bd": plain})
+                want_mesh = tf.transform(np.array(mesh, dtype=float))
+                if not np.allclose(rec["mesh"], want_mesh, rtol=1e-5 if mk == "float32" else 1e-14, atol=0):
+                    ctx.fail("corr", "solve_ode_bvp:mesh", f"{tag}: mesh handed to solve_bvp is not transform(x)",
+                             witness={"op": "bc", "case": tag, "mesh": rec["mesh"], "expected": want_mesh})
+                cases.append(("bc", tag, dict(bd=plain, ya=ya, yb=yb), res, 4.0))
+                lines.append(f"C15.bc {len(plain)} " + " ".join(f"{i} {j} {f2b(c)}" for i, j, c in plain) + f" {fvec(ya)} {fvec(yb)}")
+    finally:
+        ode.solve_ivp, ode.solve_bvp = orig
+    for (op, tag, inp, impl, scale), ans in zip(cases, driver_batch(lines)):
+        ctx.count([op, inp, tag], nontrivial=True, tag=f"{op}:containers:{tag.split(':')[0]}:{tag.split(':')[2]}")
+        got = _ok_vec(ans)
+        if not _vec_close(got, impl, scale):
+            ctx.fail("corr", f"solve_ode:{op}:{tag.split(':')[0]}",
+                     f"{op} ({tag}) on {inp}: implementation {impl}, model {ans if got is None else got}",
+                     witness={"op": op, "case": tag, "input": inp, "impl": impl, "model": got})
